@@ -3,6 +3,7 @@
 //! byte, FS-info count known/unknown). `imggen` provides everything the library's formatter cannot produce.
 
 use crate::dev::{MemDev, Store};
+use crate::imggen::{self, GenGeom};
 use crate::refdec::{self, Geom};
 use serde::{Deserialize, Serialize};
 use std::cell::RefCell;
@@ -27,6 +28,9 @@ pub struct VolCfg {
     /// initial status byte (bit 0 dirty, bit 1 I/O error)
     pub status0: u8,
     pub access_date: bool,
+    /// Some: the empty volume is built by imggen::mkfs with this geometry instead of the library's formatter
+    #[serde(default)]
+    pub gen: Option<GenGeom>,
 }
 
 pub const CANARY: u8 = 0xC7;
@@ -62,6 +66,20 @@ pub const PRESETS: &[Preset] = &[
     Preset { fat: 32, bps: 4096, spc: 1, fats: 2, root_entries: 0, total_sectors: 66000 },
 ];
 
+/// (base preset, number of FATs, geometry)
+pub const GEN_PRESETS: &[(usize, u8, fn() -> GenGeom)] = &[
+    (0, 3, || GenGeom { rsvd: 4, ..Default::default() }),
+    (1, 1, || GenGeom { rsvd: 2, label: true, eoc: 0, ..Default::default() }),
+    (3, 2, || GenGeom { rsvd: 3, pad_garbage: true, eoc: 3, ..Default::default() }),
+    (8, 3, || GenGeom { rsvd: 8, pad_garbage: true, ..Default::default() }),
+    (9, 2, || GenGeom { rsvd: 1, eoc: 0, media: 0xF0, ..Default::default() }),
+    (12, 2, || GenGeom { rsvd: 32, mirror_off: Some(0), root_cluster: 5, high_nibbles: true, ..Default::default() }),
+    (12, 3, || GenGeom { rsvd: 9, mirror_off: Some(1), fsinfo: 3, bkboot: 0, ..Default::default() }),
+    (12, 3, || GenGeom { rsvd: 32, high_nibbles: true, eoc: 0, pad_garbage: true, ..Default::default() }),
+    (13, 2, || GenGeom { rsvd: 16, mirror_off: Some(1), root_cluster: 100, label: true, ..Default::default() }),
+    (14, 1, || GenGeom { rsvd: 8, fsinfo: 1, bkboot: 6, high_nibbles: true, ..Default::default() }),
+];
+
 impl VolCfg {
     pub fn from_preset(i: usize) -> VolCfg {
         let p = &PRESETS[i % PRESETS.len()];
@@ -78,7 +96,21 @@ impl VolCfg {
             pad_sectors: 8,
             status0: 0,
             access_date: false,
+            gen: None,
         }
+    }
+    /// generated-geometry variants (what the library's formatter cannot produce)
+    pub fn from_gen_preset(i: usize) -> VolCfg {
+        let n = GEN_PRESETS.len();
+        let (pi, nf, gg) = &GEN_PRESETS[i % n];
+        let mut v = VolCfg::from_preset(*pi);
+        v.fats = *nf;
+        v.gen = Some(gg());
+        if v.fat == 32 {
+            // room for a third FAT and a large reserved area without dropping below 65525 clusters
+            v.total_sectors += 3000 * v.spc as u32;
+        }
+        v
     }
     pub fn cluster_size(&self) -> u32 {
         self.bps as u32 * self.spc as u32
@@ -134,19 +166,24 @@ pub fn set_fat(store: &mut Store, g: &Geom, copy: u64, n: u32, val: u32) {
 fn build_base(cfg: &VolCfg) -> Result<Store, String> {
     let vol_bytes = cfg.total_sectors as u64 * cfg.bps as u64;
     let dev_bytes = vol_bytes + cfg.pad_sectors as u64 * cfg.bps as u64;
-    let store = if dev_bytes <= (4 << 20) { Store::dense(dev_bytes as usize, GARBAGE) } else { Store::sparse(dev_bytes, GARBAGE) };
-    let mut dev = MemDev::new(store);
-    let mut opts = fatfs::FormatVolumeOptions::new()
-        .bytes_per_sector(cfg.bps)
-        .bytes_per_cluster(cfg.cluster_size())
-        .fat_type(fat_type_of(cfg.fat))
-        .fats(cfg.fats)
-        .total_sectors(cfg.total_sectors);
-    if cfg.fat != 32 {
-        opts = opts.max_root_dir_entries(cfg.root_entries);
-    }
-    fatfs::format_volume(&mut dev, opts).map_err(|e| format!("format_volume failed for {:?}: {:?}", cfg, e))?;
-    let mut store = dev.take_store();
+    let mut store = if let Some(gg) = &cfg.gen {
+        imggen::mkfs(&imggen::MkfsParams { fat: cfg.fat, bps: cfg.bps, spc: cfg.spc, nfats: cfg.fats, root_entries: cfg.root_entries, total_sectors: cfg.total_sectors, pad_sectors: cfg.pad_sectors, gg: gg.clone() })
+            .map_err(|e| format!("imggen::mkfs failed for {:?}: {}", cfg, e))?
+    } else {
+        let store = if dev_bytes <= (4 << 20) { Store::dense(dev_bytes as usize, GARBAGE) } else { Store::sparse(dev_bytes, GARBAGE) };
+        let mut dev = MemDev::new(store);
+        let mut opts = fatfs::FormatVolumeOptions::new()
+            .bytes_per_sector(cfg.bps)
+            .bytes_per_cluster(cfg.cluster_size())
+            .fat_type(fat_type_of(cfg.fat))
+            .fats(cfg.fats)
+            .total_sectors(cfg.total_sectors);
+        if cfg.fat != 32 {
+            opts = opts.max_root_dir_entries(cfg.root_entries);
+        }
+        fatfs::format_volume(&mut dev, opts).map_err(|e| format!("format_volume failed for {:?}: {:?}", cfg, e))?;
+        dev.take_store()
+    };
     // canary after the declared end
     let canary = vec![CANARY; (cfg.pad_sectors as u64 * cfg.bps as u64) as usize];
     if !canary.is_empty() {
@@ -163,7 +200,9 @@ fn build_base(cfg: &VolCfg) -> Result<Store, String> {
         let bad = g.bad_mark();
         let mut c = first_bad;
         while c <= last_bad {
-            set_fat_all(&mut store, &g, c, bad);
+            if !(g.width == 32 && c == g.raw.root_clus) {
+                set_fat_all(&mut store, &g, c, bad);
+            }
             c += 1;
         }
     }
@@ -211,6 +250,29 @@ pub fn self_test() -> Result<(), String> {
             return Err(format!("preset {}: fresh volume has findings {:?}", i, d.findings));
         }
         let _ = st.len();
+    }
+    for i in 0..GEN_PRESETS.len() {
+        for tiny in [false, true] {
+            let mut cfg = VolCfg::from_gen_preset(i);
+            if tiny {
+                cfg.free_lo = Some(6);
+                cfg.free_hi = 2;
+            }
+            let dev = make_device(&cfg)?;
+            let st = dev.snapshot();
+            let d = refdec::decode(&st, refdec::DecodeOpts::default())?;
+            if !d.findings.is_empty() {
+                return Err(format!("gen preset {}: fresh volume has findings {:?}", i, d.findings));
+            }
+            // the library must mount it and agree on the geometry
+            let clock = crate::session::Clock::new(0);
+            let s = crate::session::Session::mount(&dev, &clock, &crate::session::MountOpts::default()).map_err(|e| format!("gen preset {}: library refuses to mount: {:?}", i, e))?;
+            let stats = s.fs().stats().map_err(|e| format!("gen preset {}: stats: {:?}", i, e))?;
+            if stats.total_clusters() as u64 != d.geom.clusters || stats.free_clusters() as u64 != d.free {
+                return Err(format!("gen preset {}: library sees {}/{} clusters, refdec {}/{}", i, stats.free_clusters(), stats.total_clusters(), d.free, d.geom.clusters));
+            }
+            drop(s);
+        }
     }
     Ok(())
 }
